@@ -63,7 +63,9 @@ theorem hashPrim_scalar : ∀ (m : Nat) (t : Ty) (x : Obj), sizeOf t ≤ m → t
     | bool => cases x <;> simp_all [wellTyped, isScalar]
     | enum e => cases x <;> simp_all [wellTyped, isScalar]
     | lit vs =>
-      exact leaf_scalar (memPy_leaf (by simpa [Ty.supU] using hs) (by simpa [wellTyped] using hwt))
+      rw [wellTyped] at hwt
+      simp only [Bool.and_eq_true] at hwt
+      exact litVal_scalar (by simpa [Ty.supU] using hs) hwt.1
     | opt t' =>
       have hsz : sizeOf t' ≤ m := by simp at ht; omega
       by_cases hx0 : x = .none
@@ -104,7 +106,11 @@ theorem scalarKeys_of_typed_aux (hws : w.SupU false) (hk : (KeysHP w)) :
       | bool => cases x <;> simp_all [wellTyped, scalarKeys]
       | enum e => cases x <;> simp_all [wellTyped, scalarKeys]
       | lit vs =>
-        exact leaf_scalarKeys (memPy_leaf (by simpa [Ty.supU] using hs) (by simpa [wellTyped] using hwt))
+        rw [wellTyped] at hwt
+        simp only [Bool.and_eq_true] at hwt
+        rcases memPy_litVal (by simpa [Ty.supU] using hs) hwt.1 with hl | ⟨e, m, rfl, _⟩
+        · exact leaf_scalarKeys hl
+        · rfl
       | coll k t' =>
         cases x with
         | coll ck xs =>
